@@ -71,6 +71,79 @@ def downstream(stub):
   return "\n".join(lines) + "\n", exp
 
 
+def replay_lines(src, stub):
+  """Module-level `t = <expr reading A's definitions>` statements of A, rewritten for B.
+
+  Returns [(name in B, statement for B, name in A)].  Only targets assigned exactly once at module
+  level and typed in A's stub are used; `input` (opaque conditions) is not replayed.
+  """
+  tree = pyast.parse(src)
+  defined, assigned = set(), {}
+  for st in tree.body:
+    if isinstance(st, (pyast.FunctionDef, pyast.AsyncFunctionDef, pyast.ClassDef)):
+      defined.add(st.name)
+    elif isinstance(st, (pyast.Import, pyast.ImportFrom)):
+      pass   # B does not see A's imports as A's names
+    for n in pyast.walk(st) if not isinstance(st, (pyast.FunctionDef, pyast.AsyncFunctionDef, pyast.ClassDef)) else ():
+      if isinstance(n, pyast.Name) and isinstance(n.ctx, (pyast.Store, pyast.Del)):
+        assigned[n.id] = assigned.get(n.id, 0) + 1
+  defined |= set(assigned)
+  out = []
+  for st in tree.body:
+    if not (isinstance(st, pyast.Assign) and len(st.targets) == 1 and isinstance(st.targets[0], pyast.Name)):
+      continue
+    t = st.targets[0].id
+    if assigned.get(t) != 1 or t.startswith("_") or t not in stub.consts:
+      continue
+    names = {n.id for n in pyast.walk(st.value) if isinstance(n, pyast.Name)}
+    if not (names & defined) or "input" in names or t in names:
+      continue
+    if any(n.startswith("_") for n in names & defined):
+      continue
+    if any(isinstance(n, (pyast.Lambda, pyast.NamedExpr, pyast.ListComp, pyast.DictComp, pyast.SetComp, pyast.GeneratorExp))
+           for n in pyast.walk(st.value)):
+      continue
+
+    class Q(pyast.NodeTransformer):
+      def visit_Name(self, node):
+        if node.id in defined and isinstance(node.ctx, pyast.Load):
+          return pyast.Attribute(value=pyast.Name(id="a", ctx=pyast.Load()), attr=node.id, ctx=pyast.Load())
+        return node
+    import copy
+    expr = pyast.unparse(Q().visit(copy.deepcopy(st.value)))
+    out.append(("w_" + t, "w_%s = %s" % (t, expr), t))
+  return out
+
+
+def _covers(b, a):
+  """Whether type term b (seen downstream) is at least as wide as a (inferred upstream); both _norm'ed."""
+  if b[0] == "any" or a == b:
+    return True
+  if a[0] == "union":
+    return all(_covers(b, m) for m in a[1])
+  if b[0] == "union":
+    return any(_covers(m, a) for m in b[1])
+  if a[0] == "any":
+    return True      # A gave up on this expression; B recomputes it from A's declarations and may know more
+  if a[0] == b[0] == "gen":
+    return a[1] == b[1] and len(a[2]) == len(b[2]) and all(_covers(y, x) for x, y in zip(a[2], b[2]))
+  if a[0] == b[0] == "tuple":
+    return len(a[1]) == len(b[1]) and all(_covers(y, x) for x, y in zip(a[1], b[1]))
+  if a[0] == "tuple" and b[0] == "vtuple":
+    return all(_covers(b[1], x) for x in a[1])
+  if a[0] == b[0] and a[0] in ("vtuple", "type"):
+    return _covers(b[1], a[1])
+  if a[0] == "gen" and b[0] == "cls":
+    return a[1] == b[1]      # bare generic downstream = parameters Any
+  if a[0] == "cls" and b[0] == "gen":
+    return a[1] == b[1]      # bare generic upstream (A gave up on the parameters): B may know more
+  if a[0] in ("tuple", "vtuple") and b == ("cls", "tuple"):
+    return True
+  if a[0] == "cls" and b[0] == "cls":
+    return (a[1], b[1]) in (("int", "float"), ("int", "complex"), ("float", "complex"), ("bool", "int")) or b[1] == "object"
+  return False
+
+
 def _base_needs_args(stub, b):
   ci = stub.classes.get(pyast.unparse(b))
   if ci is None:
@@ -134,7 +207,9 @@ def check_upstream(src, share):
     return [], {"outcome": "upstream-analysis-exception"}
   stub = pt.Stub(up.pyi)
   bsrc, exp = downstream(stub)
-  if not exp:
+  uses = replay_lines(src, stub)
+  bsrc += "".join(line + "\n" for _, line, _ in uses)
+  if not exp and not uses:
     return [], {"outcome": "nothing-to-reexport"}
   d = tempfile.mkdtemp(prefix="vk_c06_")
   bad = []
@@ -185,6 +260,20 @@ def check_upstream(src, share):
           bad.append("[%s] %s: upstream stub declares %s, downstream sees %s" % (
               cname, bsrc.split("\n")[[l.split(" = ")[0] for l in bsrc.split("\n")].index(name)],
               _show(want), pyast.unparse(ann)))
+      # expressions of A replayed in B through the stub: B must see a type at least as wide as the
+      # one A inferred for the same expression (the stub is a summary: it may widen, never differ)
+      for wname, line, uname in uses:
+        ann = bstub.consts.get(wname)
+        if ann is None:
+          if wname in bstub.aliases or wname in bstub.classes or wname in bstub.funcs:
+            continue
+          bad.append("[%s] `%s`: %s is missing from the downstream stub" % (cname, line, wname))
+          continue
+        got = _norm(adm.from_ast(ann, bstub.typevars))
+        want = _norm(adm.from_ast(stub.consts[uname], stub.typevars))
+        if not _covers(got, want):
+          bad.append("[%s] `%s`: upstream inferred %s for the same expression, downstream sees %s" % (
+              cname, line, pyast.unparse(stub.consts[uname]), pyast.unparse(ann)))
     if len(set(stubs.values())) > 1:
       names = list(stubs)
       for x in names[1:]:
@@ -193,7 +282,7 @@ def check_upstream(src, share):
           break
   finally:
     shutil.rmtree(d, ignore_errors=True)
-  return bad, {"outcome": "reexports", "n": len(exp)}
+  return bad, {"outcome": "reexports" + ("+replayed-expressions" if uses else ""), "n": len(exp) + len(uses)}
 
 
 def _show(term):
@@ -212,7 +301,9 @@ def work(item):
 
 
 def programs(tier):
+  from vk import defspace
   ps = [(progspace.pid(s), s) for s in c05.DEFS]
+  ps += [(i, s) for i, s in defspace.programs(tier)]
   if tier == "quick":
     ps += [(i, src) for i, src, _ in progspace.programs("smoke")]
     ps += [(i, src) for i, src, _ in progspace.programs("quick")[100::25]]
